@@ -2,8 +2,9 @@
     of byte extraction over every kind of artifact:
 
     - /repo/pkg/bootflow/systemartifacts/txtpublic/txt_public.go
-      [TXTPublic.ReadAt] (pointer receiver) (one register per call, found by its address) and
-      [Size];
+      [TXTPublic.ReadAt] (pointer receiver; since /repo 9b9036f: starts at the
+      address of a register and goes on through the registers that follow
+      without a gap until the buffer is full) and [Size];
     - /repo/pkg/bootflow/systemartifacts/amdregisters/amd_registers.go
       [AMDRegisters.ReadAt] (registers laid out back to back in collection
       order; a read goes on with the following registers until the buffer is
@@ -41,19 +42,44 @@ Definition bwrite (p : list Z) (pos : Z) (b : list Z) : list Z * Z * Z :=
      pos + n,
      if n <? zlen b then 3 else 0).
 
-(** ** TXTPublic.ReadAt *)
+(** ** TXTPublic.ReadAt (as of /repo 9b9036f) *)
 
-Fixpoint txt_readat (regs : list reg) (p : list Z) (off : Z) : outcome readres :=
+(** [binary.Size(r.Value())]: the width of the register is the width of the value
+    as it is written out ([BitSize()] -- 0 for the 256-bit TXT.PUBLIC.KEY -- is
+    only a fall-back for a value binary.Size cannot size, which does not occur
+    here: a register value is a fixed-size integer or a byte string). *)
+Definition txt_width (r : reg) : Z := zlen (g_val r).
+
+(** [registerAt(off)]: the register that STARTS at [off]; [None]: one of the
+    three errors ("a non TXT-register in the collection", "not aligned",
+    "not found") *)
+Fixpoint txt_register_at (regs : list reg) (off : Z) : option reg :=
   match regs with
-  | [] => Ok (mkRd 0 p 2)                               (* "the register ... was not found" *)
+  | [] => None
   | r :: t =>
-      if g_off r <? 0 then Ok (mkRd 0 p 2)              (* "a non TXT-register in the collection" *)
-      else
-        let l := g_bits r / 8 in
-        if (off <? g_off r) || (g_off r + l <=? off) then txt_readat t p off
-        else if negb (off =? g_off r) then Ok (mkRd 0 p 2)   (* "not aligned" *)
-        else let '(p', n, e) := bwrite p 0 (g_val r) in Ok (mkRd n p' e)
+      if g_off r <? 0 then None
+      else if (off <? g_off r) || (g_off r + txt_width r <=? off) then txt_register_at t off
+      else if off =? g_off r then Some r else None
   end.
+
+(** the loop of ReadAt: [pos] = n = out.CurrentPosition.  Every round that goes
+    on has written a whole register (at least one byte), so [S (length p)]
+    rounds suffice (lemma [txt_readat_total] in Proofs/RegFile.v). *)
+Fixpoint txt_loop (fuel : nat) (regs : list reg) (p : list Z) (pos off : Z) : outcome readres :=
+  match fuel with
+  | O => OutOfFuel
+  | S k =>
+      match txt_register_at regs (off + pos) with
+      | None => Ok (mkRd pos p 2)
+      | Some r =>
+          let '(p', pos', e) := bwrite p pos (g_val r) in
+          if negb (e =? 0) || (zlen p <=? pos') then Ok (mkRd pos' p' e)
+          else txt_loop k regs p' pos' off
+      end
+  end.
+
+Definition txt_readat (regs : list reg) (p : list Z) (off : Z) : outcome readres :=
+  txt_loop (S (length p)) regs p 0 off.
 
 Definition txt_size : Z := 65536.                        (* registers.TxtPublicSpaceSize *)
 
@@ -163,8 +189,15 @@ Fixpoint txt_lookup (regs : list reg) (off : Z) : option reg :=
   | [] => None
   | r :: t =>
       if g_off r <? 0 then None
-      else if (off <? g_off r) || (g_off r + g_bits r / 8 <=? off) then txt_lookup t off
+      else if (off <? g_off r) || (g_off r + txt_width r <=? off) then txt_lookup t off
       else Some r
+  end.
+
+(** the sparse byte space of a TXT register file: the byte at address [a] *)
+Definition txt_space (regs : list reg) (a : Z) : option Z :=
+  match txt_lookup regs a with
+  | Some r => nth_error (g_val r) (Z.to_nat (a - g_off r))
+  | None => None
   end.
 
 (** the values of the registers from the one that starts at [off] on, back to back *)
